@@ -158,6 +158,29 @@ def _worker(args: Tuple[int, List[Dict[str, Any]], str, Dict[str, Any]]) -> Dict
         finally:
             signal.alarm(0)
     path = os.path.join(outdir, "cases-%02d.json" % shard)
+    heavy_path = ""
+    thr = int(opts.get("heavy") or 0)
+    if thr:
+        # cases whose hierarchy is large go to a separate file (explored later with many TLC workers)
+        hv = [i for i, c in enumerate(cases) if max([len(st["H"]) for st in c.get("stages", [])] + [0]) > thr]
+        if hv:
+            heavy_cases = [cases[i] for i in hv]
+            keep = [c for i, c in enumerate(cases) if i not in set(hv)]
+            remap = {}
+            for new, c in enumerate(keep):
+                remap[id(c)] = new + 1
+            for s_ in summary:
+                if s_.get("build") == "ok":
+                    c = cases[s_["case"] - 1]
+                    if id(c) in remap:
+                        s_["case"] = remap[id(c)]
+                    else:
+                        s_["heavy"] = heavy_cases.index(c) + 1
+                        s_["case"] = 0
+            cases = keep
+            heavy_path = os.path.join(outdir, "heavy-%02d.json" % shard)
+            with open(heavy_path, "w") as f:
+                json.dump(heavy_cases, f, separators=(",", ":"))
     derived: Dict[str, Any] = {}
     for key, spec in (opts.get("derive") or {}).items():
         mod, fn = spec.split(":")
@@ -177,7 +200,7 @@ def _worker(args: Tuple[int, List[Dict[str, Any]], str, Dict[str, Any]]) -> Dict
         cases_out = cases
     with open(path, "w") as f:
         json.dump(cases_out, f, separators=(",", ":"))
-    return {"shard": shard, "path": path, "ncases": len(cases), "summary": summary, "derived": derived}
+    return {"shard": shard, "path": path, "ncases": len(cases), "summary": summary, "derived": derived, "heavy_path": heavy_path}
 
 
 def _one(inp: Dict[str, Any], pids: PayloadIds, t0: float, opts: Dict[str, Any], hook: Any, cases: List[Any], summary: List[Any]) -> None:
@@ -230,6 +253,7 @@ def record_domain(
     drop_cases: bool = False,
     names: bool = False,
     reload: bool = False,
+    heavy: int = 0,
 ) -> List[Dict[str, Any]]:
     """Run the real code over `inputs` in `jobs` processes; write `shards`
     JSON files under outdir; return per-shard results (path, summaries)."""
@@ -240,7 +264,7 @@ def record_domain(
     order = sorted(range(len(inputs)), key=lambda i: -len(inputs[i].get("g", [])))
     for j, i in enumerate(order):
         parts[j % shards].append(inputs[i])
-    opts = {"stages": stages, "events": events, "hook": hook, "cap": cap, "derive": derive, "drop_cases": drop_cases, "names": names, "reload": reload}
+    opts = {"stages": stages, "events": events, "hook": hook, "cap": cap, "derive": derive, "drop_cases": drop_cases, "names": names, "reload": reload, "heavy": heavy}
     tasks = [(k, parts[k], outdir, opts) for k in range(shards)]
     ctx = mp.get_context("fork")
     with ctx.Pool(min(jobs, shards)) as pool:
